@@ -118,6 +118,11 @@ void harness (void)
       if (g_exact && (g_chain[0] != root || mf[0] || root->n_subtrees > 0)) spec_found = 1;
       for (int k = 0; k < MAXD; k++) if (k < g_depth && (k > 0 || !g_exact) && mf[k] && fb[k]) spec_found = 1;
     }
+#ifdef VERIF_CHECK_FOUND   /* unit C20.found */
   __CPROVER_assert (IMP (foundp != NULL, (found != 0) == spec_found), "postE found_object iff the path is in the registered tree or below a registered fallback handler");
+#else                      /* unit C20.dispatch: the direction that does not depend on stale fallback flags */
+  __CPROVER_assert (IMP (foundp != NULL && spec_found, found != 0), "postE found_object whenever the path is in the registered tree or below a registered fallback handler");
+  __CPROVER_assert (IMP (foundp != NULL, found == 0 || found == 1), "postE found_object is a boolean");
+#endif
   if (foundp && found) REACH ("found"); if (foundp && !found) REACH ("not-found");
 }
